@@ -152,6 +152,10 @@ func init() {
 var c12Closings = []string{"local-close", "local-close-reason", "peer-close-frame", "peer-eof", "write-fail", "cut", "stall"}
 
 func setupC12(x *Ctx) {
+	if x.Feat(FeatTransportStall) && x.Spec.Prop == "C12" && x.Chance("c12-ship-pair", 0.15) {
+		c12ShipPair(x)
+		return
+	}
 	uutClient := x.Chance("uut-client", 0.5)
 	nWriters := 1 + x.Choose("writers", 4)
 	perWriter := 1 + x.Choose("per-writer", 6)
